@@ -6,6 +6,7 @@ From Coq.Strings Require Import Byte String.
 From Coq Require Import List.
 Import ListNotations.
 From V Require Import lib.Bytes spec.Whatwg spec.CssScan gen.Tables05 model.Css proofs.CssProof.
+From V Require Import spec.HtmlTok spec.CssSink spec.DocExpect model.DocFrag model.CssRender proofs.CssRenderProof proofs.CssDocProof.
 
 (* safehtml.SanitizeCSS, for every property name and every value, on every sanitiser path (regular, enum,
    font-family, background-image, unlisted and invalid names): the returned name is a non-empty run of ASCII
@@ -59,6 +60,66 @@ Theorem C05_style_attr_closed : forall parse (vals : list sval) (out : bytes),
 Proof. exact style_attr_closed. Qed.
 Print Assumptions C05_style_attr_closed.
 
+(* ---- END TO END: the CSS a browser reads out of the rendered document (spec/CssSink.v) ---- *)
+
+(* a value that stays inside its declaration holds no '<' at all: it cannot spell "</style" *)
+Theorem C05_confined_no_lt : forall v : bytes, confined v = true -> nolt v = true.
+Proof. exact confined_nolt. Qed.
+Print Assumptions C05_confined_no_lt.
+
+(* sanitise -> html.EscapeString -> ATTRIBUTE DECODING (character references, the standard's 2231 names, attribute
+   mode) -> CSS scanner.  The string SanitizeStyleAttributeValues returns is the escaped form of the declaration
+   text; decoded as a browser decodes an attribute value it is that text again, and it reads back as exactly the
+   declarations the pieces stand for (values trusted by type are asked to be confined, as the developer's). *)
+Theorem C05_style_attr_end_to_end : forall parse, parse_contract parse ->
+  forall (vals : list sval) (ps : list piece) (out : bytes) (ds : list (bytes * bytes)),
+  sa_values parse vals = Some ps -> style_attr parse vals = Some out ->
+  pieces_decls ps = Some ds -> safe_values_confined ps ->
+  css_decode_attr out = render_decls ds /\ decl_list (css_decode_attr out) = Some ds /\ Forall piece_ok ps.
+Proof. exact style_attr_end_to_end. Qed.
+Print Assumptions C05_style_attr_end_to_end.
+
+(* ... in the document: generated code writes  <elem style="out">children</elem>  (out unescaped between the
+   quotes).  The tokenizer reports exactly one style attribute whose raw value is out - the value cannot end the
+   attribute or the tag - the CSS parser receives the declaration text, and when every piece is a sanitised
+   declaration (string maps and key/value pairs, nested in funcs and slices) the END-TO-END predicate holds: exactly
+   as many declarations as pairs written, each with a letters-and-hyphen name, a confined value and allow-listed URLs. *)
+Theorem C05_style_attr_document : forall parse, parse_contract parse ->
+  forall (elem : bytes) (vals : list sval) (ps : list piece) (out : bytes) (ch : list tree),
+  elem_name elem = true -> text_kind (map lower elem) = XData -> forallb wf ch = true ->
+  sa_values parse vals = Some ps -> style_attr parse vals = Some out -> all_sanitised ps = true ->
+  let doc := style_attr_elem elem out (flat_map render ch) in
+  tok doc = TStart (map lower elem) [(bs "style", out)] false :: flat_map expected ch ++ [TEnd (map lower elem)] /\
+  style_attr_css doc (map lower elem) = Some (raw_text ps) /\
+  style_attr_okb doc (map lower elem) (length ps) = true.
+Proof. exact style_attr_document. Qed.
+Print Assumptions C05_style_attr_document.
+
+(* css components as generated code writes them: a constant property is the author's text; an EXPRESSION property
+   is templ.SanitizeCSS(name, value of the expression) whatever the Go expression looks like.  The text of the
+   classes reads back, with the style-sheet scanner, as exactly one rule per class, selector ".id", holding exactly
+   the component's declarations - an expression property as the sanitiser's (name, value) - each acceptable. *)
+Theorem C05_style_sheet_reads_back : forall parse, parse_contract parse ->
+  forall cs : list (bytes * list cprop), classes_ok cs ->
+  rule_list (style_text parse cs) = Some (map (class_rule parse) cs) /\
+  rules_match (map (class_rule parse) cs) (map (fun c => length (snd c)) cs) = true.
+Proof. exact style_sheet_reads_back. Qed.
+Print Assumptions C05_style_sheet_reads_back.
+
+(* ... in the document: templ.RenderCSSItems writes  <style type="text/css">classes</style>  before the element
+   that uses the classes.  The tokenizer (RAWTEXT inside <style>: nothing is decoded, the element ends at the first
+   "</style") reports the start tag, the classes' text as character data, the end tag, and then the rest of the
+   document as written: no dynamic value ends the style element.  The element's text satisfies the END-TO-END
+   predicate. *)
+Theorem C05_style_element_document : forall parse, parse_contract parse ->
+  forall (cs : list (bytes * list cprop)) (rest : list tree), cs <> [] -> classes_ok cs -> forallb wf rest = true ->
+  let doc := style_element parse cs ++ flat_map render rest in
+  tok doc = TStart (bs "style") [(bs "type", bs "text/css")] false :: chars (style_text parse cs) ++ TEnd (bs "style") :: flat_map expected rest /\
+  style_scan (tok doc) None [] = style_scan (flat_map expected rest) None [style_text parse cs] /\
+  style_elem_okb (style_text parse cs) (map (fun c => length (snd c)) cs) = true.
+Proof. exact style_element_document. Qed.
+Print Assumptions C05_style_element_document.
+
 (* ---- non-vacuity and witnesses ---- *)
 (* the contract on url.Parse is satisfiable *)
 Example C05_ex_contract : parse_contract parse_example.
@@ -91,3 +152,24 @@ Example C05_ex_spec_rejects :
   confined (bs "a\") = false /\ confined (bs """a") = false /\ confined (bs "url(a") = false /\
   urls_ok (bs "url(javascript:x)") = false /\ urls_ok (bs "url("" data:x"")") = false.
 Proof. vm_compute. repeat split; reflexivity. Qed.
+
+(* the end-to-end predicates are not trivially true: a style attribute whose escaper copies a character reference
+   of the value through reads, after attribute decoding, as three declarations where one was written; a class whose
+   expression value was not sanitised reads as two rules *)
+Example C05_ex_sink_rejects :
+  css_decode_attr (bs "font-family:&#34;x&#34;;color:red;y:&#34;z&#34;;") = bs "font-family:""x"";color:red;y:""z"";" /\
+  decls_okb (css_decode_attr (bs "font-family:&#34;x&#34;;color:red;y:&#34;z&#34;;")) 1 = false /\
+  decls_okb (css_decode_attr (bs "font-family:&#34;x&amp;#34;;color:red;y:&amp;#34;z&#34;;")) 1 = true /\
+  style_elem_okb (bs ".c_1a2b{background-image:url('x');}*{color:red;y:url('z');}") [1%nat] = false /\
+  style_elem_okb (bs ".c_1a2b{background-image:url('x');}") [1%nat] = true /\
+  style_elem_okb (bs ".c_1a2b{font-family:""</style><script>alert(1)</script>"";}") [1%nat] = false /\
+  confined (bs "a\<b") = false.
+Proof. vm_compute. repeat split; reflexivity. Qed.
+(* and their hypotheses are satisfiable: a class with a constant and two expression properties *)
+Example C05_ex_classes_ok :
+  classes_ok [(bs "c_1a2b", [CConst (bs "width") (bs "1px"); CDyn (bs "color") (bs "red;x"); CDyn (bs "font-family") (bs """a;b""")])] /\
+  style_text parse_example [(bs "c_1a2b", [CConst (bs "width") (bs "1px"); CDyn (bs "color") (bs "red;x"); CDyn (bs "font-family") (bs """a;b""")])]
+  = bs ".c_1a2b{width:1px;color:zTemplUnsafeCSSPropertyValue;font-family:""a;b"";}".
+Proof.
+  split; [|vm_compute; reflexivity]. repeat constructor; try discriminate; vm_compute; reflexivity.
+Qed.
